@@ -119,7 +119,7 @@ def renderEventsSorted (l : List Event) : String := bracket (sortStrs (l.map ren
 def renderEventsSeq (l : List Event) : String := bracket (l.map renderEvent)
 
 def renderRes : Res → String
-  | .ok => "ok" | .stale => "stale" | .future => "future" | .err => "err"
+  | .ok => "ok" | .stale => "stale" | .future => "future" | .err => "err" | .panic => "panic"
 
 def renderMeta (t : Target) : String :=
   let m := t.md
@@ -151,7 +151,8 @@ def step (st : St) (args : List String) : St × String × String :=
   | ["upd", now, noti] =>
       let pn := parseNoti noti
       let r := s.gnmiUpdate (parseInt now) pn.1 pn.2
-      dup ({ s := r.2.1 }, renderRes r.1 ++ " " ++ renderGroups r.2.2)
+      if r.1 = .panic then dup ({ s := r.2.1 }, "panic")
+      else dup ({ s := r.2.1 }, renderRes r.1 ++ " " ++ renderGroups r.2.2)
   | ["updmeta", now] =>
       let r := s.updateMetadata enc (parseInt now); dup ({ s := r.1 }, renderEventsSorted r.2)
   | ["query", t, q] =>
